@@ -497,6 +497,8 @@ func runC04(r *an.Run) {
 				o.FailAt("contractcourt.taprootBriefcaseFromRetInfo#pairs", "", "expected at least 6 stored field pairs, found %d", n)
 			}
 		})
+
+	justiceLockTime(r)
 }
 
 // transferPairs extracts, per case clause of the first tag switch of f, the
